@@ -109,8 +109,10 @@ Definition wit_no_mid : list op :=
                          {| r_kind := KVideo; r_mid := "1"; r_dir := Some Sendrecv; r_port0 := false; r_codec := false |}]
                         "BUNDLE 0 1");
    CreateAnswer].
-(* CreateOffer while a remote offer is pending *)
-Definition wit_numbering : list op :=
+(* CreateOffer while a remote offer is pending: before the repair of the
+   numbering loop the audio transceiver received the mid "0" of the video
+   transceiver the pending offer had just created; now it is numbered "1" *)
+Definition was_numbering : list op :=
   [AddTransceiver MAudio Recvonly; SetRemote TOffer (rd [rs KVideo "0" (Some Sendrecv)] "BUNDLE 0"); CreateOffer].
 (* greaterMid wraps around *)
 Definition wit_overflow : list op :=
@@ -125,8 +127,9 @@ Lemma wit_unsent_mid_refutes : remote_ok wit_unsent_mid /\ exists d, In d (gener
 Proof. apply refute_c06; vm_compute; reflexivity. Qed.
 Lemma wit_no_mid_refutes : remote_ok wit_no_mid /\ exists d, In d (generated wit_no_mid) /\ ~ c06_holds d.
 Proof. apply refute_c06; vm_compute; reflexivity. Qed.
-Lemma wit_numbering_refutes : remote_ok wit_numbering /\ exists d, In d (generated wit_numbering) /\ ~ c06_holds d.
-Proof. apply refute_c06; vm_compute; reflexivity. Qed.
+Lemma was_numbering_now :
+  map sec_mids (generated was_numbering) = [[Some "1"; Some "0"]].
+Proof. vm_compute. reflexivity. Qed.
 Lemma wit_overflow_refutes : remote_ok wit_overflow /\ exists d, In d (generated wit_overflow) /\ ~ c06_holds d.
 Proof. apply refute_c06; vm_compute; reflexivity. Qed.
 
@@ -138,11 +141,10 @@ Proof. eexists. split; [vm_compute; reflexivity|split; reflexivity]. Qed.
 
 (* ---------- boolean guards (to show the premises of the partial theorems are
    satisfiable on concrete histories) ---------- *)
-Definition numbering_okb (s : st) : bool := nodupb (set_mids (trs (offer_alloc s))).
 Definition codecs_okb (s : st) : bool := has_codecs s MAudio && has_codecs s MVideo.
 Definition offer_guardb (s : st) : bool :=
   let s1 := offer_alloc s in
-  numbering_okb s &&
+  offer_nowrap s &&
   forallb (fun t => forallb (fun r => match r_kind r with
                                       | KApplication => negb (String.eqb (t_mid t) (r_mid r))
                                       | _ => true
@@ -155,8 +157,6 @@ Definition offer_guardb (s : st) : bool :=
 Definition gen_guardb (s : st) (o : op) : bool :=
   match o with CreateOffer => offer_guardb s | _ => codecs_okb s end.
 
-Lemma numbering_okb_sound s : numbering_okb s = true -> numbering_ok s.
-Proof. apply nodupb_sound. Qed.
 Lemma codecs_okb_sound s : codecs_okb s = true -> codecs_ok s.
 Proof. unfold codecs_okb. intro H. apply andb_true_iff in H. destruct H. intros []; assumption. Qed.
 
@@ -165,7 +165,7 @@ Proof.
   unfold offer_guardb, offer_guard. intro H.
   apply andb_true_iff in H. destruct H as [H H4]. apply andb_true_iff in H. destruct H as [H H3].
   apply andb_true_iff in H. destruct H as [H1 H2].
-  split; [apply numbering_okb_sound; exact H1|]. split; [|split; [|apply codecs_okb_sound; exact H4]].
+  split; [exact H1|]. split; [|split; [|apply codecs_okb_sound; exact H4]].
   - intros t r Ht Hr Hk E. rewrite forallb_forall in H2. specialize (H2 _ Ht).
     rewrite forallb_forall in H2. specialize (H2 _ Hr). rewrite Hk in H2.
     rewrite E, String.eqb_refl in H2. discriminate.
@@ -182,7 +182,7 @@ Definition all_guardsb (ops : list op) : bool :=
 
 Lemma all_guardsb_sound ops :
   all_guardsb ops = true ->
-  numbering_ok_all ops /\ forall s o out s', In (s, o, out, s') (trace ops) -> gen_guard s o.
+  nowrap_all ops /\ forall s o out s', In (s, o, out, s') (trace ops) -> gen_guard s o.
 Proof.
   unfold all_guardsb. rewrite forallb_forall. intro H. split.
   - intros s out s' Hin. specialize (H _ Hin). cbn in H. apply offer_guardb_sound in H. exact (proj1 H).
@@ -201,7 +201,7 @@ Definition ex_guarded : list op :=
    AddTransceiver MAudio Sendonly; CreateOffer].
 
 Lemma ex_guarded_ok :
-  remote_ok ex_guarded /\ numbering_ok_all ex_guarded /\
+  remote_ok ex_guarded /\ nowrap_all ex_guarded /\
   (forall s o out s', In (s, o, out, s') (trace ex_guarded) -> gen_guard s o) /\
   map (fun d => List.length (l_secs d)) (generated ex_guarded) = [3; 4; 5]%nat.
 Proof.
